@@ -185,6 +185,30 @@ where T: TreeKey + TreeSerialize + TreeDeserializeOwned + TreeAny + Snap {
     }
 }
 
+/// types that implement only TreeKey + TreeSerialize (RangeInclusive and containers of it): the read-only operations
+pub fn run_op_ro<T>(t: &mut T, op: &Value) -> Obs
+where T: TreeKey + TreeSerialize + Snap {
+    let before = match op["op"].as_str().unwrap() { "ser" => Snap::snap(&*t), _ => l(vec![]) };
+    match op["op"].as_str().unwrap() {
+        "transcode" => transcode_op::<T>(op),
+        "rawtrav" => rawtrav_op::<T>(op),
+        "meta" => meta_op::<T>(),
+        "ser" => {
+            let n = op["buf"].as_u64().unwrap_or(256) as usize;
+            let mut buf = vec![0u8; n];
+            let (r, len) = with_keys(&op["keys"], &mut |k| {
+                let mut ser = serde_json_core::ser::Serializer::new(&mut buf[..]);
+                let r = t.serialize_by_key(DynKeys(k), &mut ser);
+                (r, ser.end())
+            });
+            let out = if r.is_ok() { l(buf[..len].iter().map(|x| z(*x)).collect()) } else { l(vec![]) };
+            l(vec![res_obs(&r), out, log_obs(), snap_delta(&*t, &before)])
+        }
+        "snap" => Snap::snap(&*t),
+        other => panic!("op {other} on a read-only type"),
+    }
+}
+
 fn item_obs<N>(it: Option<Result<(N, Node), usize>>, f: &dyn Fn(&N) -> Obs, res: Option<&dyn Fn(&N, &Node) -> Obs>) -> Obs {
     match it {
         None => l(vec![z(2)]),
@@ -281,6 +305,32 @@ macro_rules! impl_case {
             }
             drop(t);
             $crate::l(vec![$crate::l(outs), $crate::l(tables)])
+        }
+    };
+}
+/// the same for TreeKey + TreeSerialize types
+#[macro_export]
+macro_rules! impl_case_ro {
+    ($name:ident, $t:ty, $build:path, [$($d:literal),+]) => {
+        pub fn $name(case: &$crate::serde_json::Value) -> $crate::Obs {
+            let mut keep: Vec<Box<dyn std::any::Any>> = vec![];
+            let mut t: $t = $build(case["state"].as_u64().unwrap() as usize, &mut keep);
+            let mut outs = vec![];
+            for op in case["ops"].as_array().unwrap() {
+                $crate::set_oracle_json(&op["oracle"]);
+                let r = std::panic::catch_unwind(std::panic::AssertUnwindSafe(|| {
+                    if op["op"] == "iter" {
+                        match op["d"].as_u64().unwrap() {
+                            $($d => $crate::iter_op::<$t, $d>(op),)+
+                            _ => $crate::l(vec![$crate::z(-996)]),
+                        }
+                    } else { $crate::run_op_ro(&mut t, op) }
+                }));
+                let _ = $crate::take_log();
+                outs.push(r.unwrap_or_else(|_| $crate::panic()));
+            }
+            drop(t);
+            $crate::l(vec![$crate::l(outs), $crate::l(vec![])])
         }
     };
 }
